@@ -542,7 +542,7 @@ def run(fx, tier):
         pf = compile_fn(f, hooks, capture=('attr', 'first'))
     except NotCompilable as ex:
         raise AnalysisBroken('varint_parser::parse is outside the evaluable fragment: %s' % ex)
-    cls = (0x00, 0x01, 0x7F, 0x80, 0x81, 0xFF)
+    cls = (0x00, 0x01, 0x7F, 0x80, 0x81, 0xFF) if tier == 'quick' else (0x00, 0x01, 0x02, 0x3F, 0x40, 0x7E, 0x7F, 0x80, 0x81, 0xBF, 0xC0, 0xFE, 0xFF)
     bad = None
     n_eval = 0
 
@@ -555,6 +555,10 @@ def run(fx, tier):
             yield bytes([a])
             yield bytes([a, 0x01])
             yield bytes([0x80, a])
+            if tier != 'quick':
+                for b_ in range(256):
+                    yield bytes([a, b_])
+                    yield bytes([0xFF, a, b_])
     for s in seqs():
         n_eval += 1
         first, last = It(s, 0), It(s, len(s))
